@@ -40,7 +40,7 @@ def gen_problem(rng, family=None, nmax=6, mmax=3, fixed_prob=0.3, allow_dom=True
         Q = np.diag(rng.choice([-2.0, -1.0, -0.5, -0.25, 0.5, 1.0, 2.0], size=n, p=[0.1, 0.3, 0.15, 0.1, 0.1, 0.15, 0.1]))
     Q = np.round(Q, 6)
     q = _r(rng, n, scale=2.0)
-    quart = family in ("nlp", "infeasible", "domain")
+    quart = family in ("nlp", "infeasible", "domain", "expo")
     a = np.round(np.abs(_r(rng, n)) * rng.integers(0, 2, size=n), 3) if quart else np.zeros(n)
     A = _r(rng, m, n) * (rng.random((m, n)) < 0.7)
     B = (_r(rng, m, n) * (rng.random((m, n)) < 0.3)) if quart else np.zeros((m, n))
@@ -110,8 +110,18 @@ def gen_problem(rng, family=None, nmax=6, mmax=3, fixed_prob=0.3, allow_dom=True
                 lo[j] = xl[j] - float(rng.choice([0.25, 1.0]))
         if w.any():
             dom = {"w": w, "lo": lo}
+    expo = None
     x0 = np.clip(_r(rng, n, scale=2.0), xl, xu)
-    if rng.random() < 0.2:
+    if family == "expo":
+        k = np.zeros(n)
+        s_ = np.zeros(n)
+        for j in range(n):
+            if rng.random() < 0.7:
+                k[j] = float(rng.choice([-400.0, -60.0, 60.0, 400.0]))
+                s_[j] = float(np.round(k[j] * x0[j] + float(rng.choice([0.0, 3.0])), 6))  # exp(<= 3) at the start
+        if k.any():
+            expo = {"k": k, "s": s_}
+    if rng.random() < 0.2 and family != "expo":
         # start on the boundary where there is one
         for j in range(n):
             if np.isfinite(xl[j]) and rng.random() < 0.5:
@@ -120,7 +130,7 @@ def gen_problem(rng, family=None, nmax=6, mmax=3, fixed_prob=0.3, allow_dom=True
                 x0[j] = xu[j]
     y0 = _r(rng, m) * int(rng.integers(0, 2))
     spec = dict(
-        family=family, n=n, m=m, Q=Q, q=q, a=a, A=A, B=B, b=np.round(b, 9), xl=xl, xu=xu, cl=cl, cu=cu, dom=dom,
+        family=family, n=n, m=m, Q=Q, q=q, a=a, A=A, B=B, b=np.round(b, 9), xl=xl, xu=xu, cl=cl, cu=cu, dom=dom, expo=expo,
         policy="fresh", fmt=str(rng.choice(["coo", "csr", "csc"])),
     )
     return spec, x0, y0
